@@ -18,6 +18,7 @@ pub struct EOracles {
     pub graph: bool,
     pub prefill3: bool,
     pub flags: bool,
+    pub flags_prop: &'static str,
     pub twin: bool,
     pub decode_back: bool,
     pub submin: bool,
@@ -83,6 +84,7 @@ pub struct EKey {
     pub back: Option<Decoder>,
     pub back_got: Vec<u32>,
     pub back_want: Vec<u32>,
+    pub tainted: bool,
 }
 
 impl EKey {
@@ -668,6 +670,7 @@ impl<'a> Explorer<'a> {
         di.drain(..n);
         ds.drain(..n);
         const CAP: usize = 24;
+        let mut tainted = key.tainted;
         if or.conform {
             if diverged {
                 self.classify(l, "token mismatch", id, &call);
@@ -683,12 +686,14 @@ impl<'a> Explorer<'a> {
             }
         } else if diverged || di.len() > CAP || ds.len() > CAP || (fin && (!di.is_empty() || !ds.is_empty())) {
             *l.stats.suppressed.entry("conformance".into()).or_insert(0) += 1;
-            return;
+            di.clear();
+            ds.clear();
+            tainted = true;
         }
         // ---- C09 flag
-        if or.flags && cfg.repl && own_all_classified {
+        if or.flags && cfg.repl && own_all_classified && !tainted {
             if o.had_unmappables != Some(own_subst) {
-                self.vio(l, "C09", "had-unmappables-flag", format!("had_unmappables = {:?} but this call {} a numeric character reference", o.had_unmappables, if own_subst { "wrote" } else { "did not write" }), id, &call);
+                self.vio(l, if or.flags_prop.is_empty() { "C09" } else { or.flags_prop }, "had-unmappables-flag", format!("had_unmappables = {:?} but this call {} a numeric character reference", o.had_unmappables, if own_subst { "wrote" } else { "did not write" }), id, &call);
             }
         }
         // ---- C12
@@ -696,7 +701,7 @@ impl<'a> Explorer<'a> {
         let mut back_got = key.back_got.clone();
         let mut back_want = key.back_want.clone();
         if or.decode_back {
-            if di.is_empty() && ds.is_empty() {
+            if di.is_empty() && ds.is_empty() && !tainted {
                 let want_pending = !rf.is_ascii_state();
                 if enc.has_pending_state() != want_pending {
                     self.vio(l, "C12", "has-pending-state", format!("has_pending_state() = {} but the stream is {} the ASCII state", enc.has_pending_state(), if want_pending { "outside" } else { "in" }), id, &call);
@@ -784,7 +789,7 @@ impl<'a> Explorer<'a> {
         let rem: Vec<u32> = if o.res == ERes::InputEmpty { vec![] } else { units[consumed_units..].to_vec() };
         let nlast = if o.res == ERes::InputEmpty { false } else { last };
         let nlast = if rem.is_empty() && !last { false } else { nlast };
-        let nk = EKey { enc, rf, di, ds, rem, last: nlast && !fin, fin, back, back_got, back_want };
+        let nk = EKey { enc, rf, di, ds, rem, last: nlast && !fin, fin, back, back_got, back_want, tainted };
         let weight = if in_domain { Some(if o.res == ERes::InputEmpty { -4 * o.read as i32 } else { 1 - 4 * o.read as i32 }) } else { None };
         let h = hash_of(&nk);
         match self.index.find(h, |i| *self.keys[i as usize] == nk) {
@@ -955,7 +960,7 @@ impl<'a> Explorer<'a> {
         let mut vios = VioSet::default();
         let out_enc = crate::spec::enc(cfg.enc.output_name());
         let back = if cfg.or.decode_back { Some(out_enc.imp.new_decoder_without_bom_handling()) } else { None };
-        let root = Arc::new(EKey { enc: cfg.enc.imp.new_encoder(), rf: cfg.enc.ref_encoder(), di: vec![], ds: vec![], rem: vec![], last: false, fin: false, back, back_got: vec![], back_want: vec![] });
+        let root = Arc::new(EKey { enc: cfg.enc.imp.new_encoder(), rf: cfg.enc.ref_encoder(), di: vec![], ds: vec![], rem: vec![], last: false, fin: false, back, back_got: vec![], back_want: vec![], tainted: false });
         let dummy = ECallRec { units: vec![], cap: 0, last: false, fill: 0, dalign: 0, fresh: true };
         self.nodes.push(NodeMeta { parent: 0, call: dummy.clone(), fresh: true });
         self.keys.push(root.clone());
@@ -979,12 +984,26 @@ impl<'a> Explorer<'a> {
                     }
                 }
             }
-            let locals: Vec<Local> = par_map(&items, cfg.threads, |&(id, lo, hi)| self.expand(id, lo, hi));
+            let locals: Vec<Local> = par_map(&items, cfg.threads, |&(id, lo, hi)| {
+                // a panic here is a panic of the harness (those of the code under test are caught
+                // per call); it can be the consequence of memory corrupted by the code under test
+                match std::panic::catch_unwind(std::panic::AssertUnwindSafe(|| self.expand(id, lo, hi))) {
+                    Ok(l) => l,
+                    Err(e) => {
+                        let mut l = Local::default();
+                        l.stats = Stats::new();
+                        l.vios.add(Violation { prop: "MACHINERY".into(), kind: "harness-panic".into(), msg: format!("harness panicked while expanding a state of {}: {}", self.cfg.label(), crate::imp::panic_msg(e)), replay: J::obj() });
+                        l
+                    }
+                }
+            });
             let mut next = vec![];
             let mut class_total = vec![0u64; 300];
             for l in locals {
                 for (i, c) in l.class_counts.iter() {
-                    class_total[*i as usize] += c;
+                    if let Some(x) = class_total.get_mut(*i as usize) {
+                        *x += c;
+                    }
                 }
                 stats.merge(&l.stats);
                 vios.merge(l.vios);
@@ -1048,13 +1067,17 @@ impl<'a> Explorer<'a> {
     }
 
     fn progress_graph(&self, stats: &mut Stats, vios: &mut VioSet) {
+        // Longest path from the initial node with edge weight (calls - 4 * input consumed).
+        // Relaxation stops as soon as some node exceeds the bound: that already is a history
+        // with more than 4n + 16 calls (a positive cycle exceeds every bound after a few rounds).
+        const BOUND: i64 = 16;
         let n = self.nodes.len();
         let mut dist: Vec<i64> = vec![i64::MIN; n];
         dist[1] = 0;
         let mut rounds = 0usize;
         let mut changed = true;
-        let mut culprit: Option<u32> = None;
-        while changed {
+        let mut culprit: Option<(u32, i64)> = None;
+        'outer: while changed {
             changed = false;
             rounds += 1;
             for &(a, b, w) in &self.edges {
@@ -1065,8 +1088,9 @@ impl<'a> Explorer<'a> {
                 if da + w as i64 > dist[b as usize] {
                     dist[b as usize] = da + w as i64;
                     changed = true;
-                    if rounds > n + 1 {
-                        culprit = Some(b);
+                    if dist[b as usize] > BOUND {
+                        culprit = Some((b, dist[b as usize]));
+                        break 'outer;
                     }
                 }
             }
@@ -1075,19 +1099,12 @@ impl<'a> Explorer<'a> {
             }
         }
         let maxw = dist.iter().copied().filter(|d| *d != i64::MIN).max().unwrap_or(0);
-        stats.notes.push(format!("{}: progress graph {} edges, max path weight (calls - 4*read) = {}, rounds {}", self.cfg.label(), self.edges.len(), maxw, rounds));
-        if let Some(c) = culprit {
+        stats.notes.push(format!("{}: progress graph {} edges, max path weight (calls - 4*read) = {}, relaxation rounds {}", self.cfg.label(), self.edges.len(), maxw, rounds));
+        if let Some((c, w)) = culprit {
             let call = self.nodes[c as usize].call.clone();
             let parent = self.nodes[c as usize].parent;
             let mut l = Local::default();
-            self.vio(&mut l, "C08", "positive-cycle", "the call graph has a cycle with more calls than 4x the input consumed".into(), parent, &call);
-            vios.merge(l.vios);
-        } else if maxw > 16 {
-            let (idx, _) = dist.iter().enumerate().filter(|(_, d)| **d != i64::MIN).max_by_key(|(_, d)| **d).unwrap();
-            let call = self.nodes[idx].call.clone();
-            let parent = self.nodes[idx].parent;
-            let mut l = Local::default();
-            self.vio(&mut l, "C08", "linear-bound-exceeded", format!("a history needs {} more calls than 4x its input length (bound 16)", maxw), parent, &call);
+            self.vio(&mut l, "C08", "linear-bound-exceeded", format!("the call graph contains a history with at least {} more calls than 4x the input it consumed (bound {}): the documented loop is not linearly bounded / need not terminate", w, BOUND), parent, &call);
             vios.merge(l.vios);
         }
     }
